@@ -5,6 +5,7 @@ import (
 	"crypto/rsa"
 	"fmt"
 	"os"
+	"strings"
 	"time"
 
 	"github.com/beevik/etree"
@@ -210,6 +211,7 @@ func runC10(c *core.Ctx) {
 					c.Case(key, func(t *core.T) {
 						t.NonTrivial()
 						k := detKey(blk.lib.KeySize(), "seq"+blk.name)
+						k0 := append([]byte{}, k...)
 						var lens []int
 						for _, l := range []int{l1, l2, l3} {
 							if l >= 0 {
@@ -243,8 +245,14 @@ func runC10(c *core.Ctx) {
 							return nil
 						})
 						t.Compared()
+						if !bytes.Equal(k, k0) {
+							t.Fail("C10/sequence/"+blk.name+"/call-alters-the-callers-key", "%s: after the calls the caller's key slice reads %x.., it was %x..", key, trunc(k, 8), trunc(k0, 8))
+						}
 						if p != "" || len(gotPts) != len(lens) {
-							t.Outcome("error-in-sequence") // totality and single round trips are judged by the other groups
+							t.Outcome("error-in-sequence")
+							if blk.name != "aes128-gcm" { // (GCM encryption is a recorded finding of the round-trip group)
+								t.Fail("C10/sequence/"+blk.name+"/valid-call-fails-after-earlier-calls", "%s: every call of the sequence is valid on its own, yet the sequence stops with an error or panic after %d decrypts (%s)", key, len(gotPts), p)
+							}
 							return
 						}
 						for i := range lens {
@@ -489,6 +497,42 @@ func c10Case(t *core.T, blk c10Block, tr c10Transport, kn string, n int, pat c10
 		t.Fail(fk("lib-decrypts-ref", "error"), "Decrypt of the independent implementation's output failed: %v", err)
 	case !bytes.Equal(got2, pt):
 		t.Fail(fk("lib-decrypts-ref", "mismatch"), "Decrypt of the independent implementation's output gave different plaintext")
+	}
+	// (b3) the same reference ciphertext with its base64 written as other encoders write it: wrapped at 76 / 64 / 60 columns (LF or CRLF),
+	// indented; xsd:base64Binary allows white space anywhere
+	if err == nil && p == "" && (n <= 1 || n == 16 || n == 33 || n == 65 || n == 1000) {
+		for _, wr := range []struct {
+			name string
+			col  int
+			nl   string
+		}{{"76-LF", 76, "\n"}, {"64-LF", 64, "\n"}, {"60-CRLF", 60, "\r\n"}, {"4-LF", 4, "\n"}} { // (blanks or tabs inside the value - indentation - are legal base64Binary too, but the statement does not reach that far: C11 records them as DONT_CARE)
+			w := refEl.Copy()
+			for _, cv := range findNS(w, xenc.NSXenc, "CipherValue") {
+				txt := strings.Join(strings.Fields(cv.Text()), "")
+				var sb strings.Builder
+				sb.WriteString(wr.nl)
+				for i := 0; i < len(txt); i += wr.col {
+					j := i + wr.col
+					if j > len(txt) {
+						j = len(txt)
+					}
+					sb.WriteString(txt[i:j] + wr.nl)
+				}
+				cv.SetText(sb.String())
+			}
+			ww, _ := rewire(w)
+			var got3 []byte
+			e3, p3 := guard(func() error { var e error; got3, e = xmlenc.Decrypt(dk, ww); return e })
+			t.Impl(1)
+			switch {
+			case p3 != "":
+				t.Fail(fk("lib-decrypts-ref", "panic-on-wrapped-base64"), "Decrypt panicked on base64 wrapped %s: %s", wr.name, p3)
+			case e3 != nil:
+				t.Fail(fk("lib-decrypts-ref", "error-on-wrapped-base64"), "the same ciphertext with its base64 wrapped %s is refused: %v", wr.name, e3)
+			case !bytes.Equal(got3, pt):
+				t.Fail(fk("lib-decrypts-ref", "mismatch-on-wrapped-base64"), "base64 wrapped %s decrypts to different plaintext", wr.name)
+			}
+		}
 	}
 	t.Compared()
 	if t.Failed() {
